@@ -93,7 +93,7 @@ CHECKS = {
  "C12": ("fault enumeration at simulated KDC endpoints: allowed-outcome set computed from the fault assignment",
          "fault_enumeration",
          "Every configured KDC is a loopback endpoint whose UDP side behaves as one of {answers, refuses, silent, KRB-ERROR, response-too-big, empty datagram} and whose TCP side as one of {answers, refuses, silent, KRB-ERROR, closes at once / inside the length prefix / inside the body}, crossed with udp_preference_limit in {1, smaller than the request, larger}: exhaustive for 1 KDC, exhaustive (thorough) or restricted to <= 1 silent side (quick) for 2 KDCs, seeded samples for 3 KDCs, plus a TGS sample and logins with a wrong password against a principal that must pre-authenticate (two round trips: the second answer, KRB-ERROR 24, must come back as the KDC's error). The result of Login/GetServiceTicket must lie in the set of outcomes the assignment permits (order-independent because the library randomises the KDC order) and the attempts seen by the endpoints must stay within 2 x transports x KDCs. A surfaced KRB-ERROR is the KRBError itself or a client error of root cause KDC_Error; plain failure is not permitted when nothing answers correctly but some endpoint sends a KRB-ERROR.",
-         "Trusts simkdc endpoints (private port pool so that a refusing side cannot be re-bound). Garbage (non-Kerberos) replies are not part of the statement and not enumerated. Verdicts of the kind 'failed although an endpoint works' depend on the library's fixed 5 s window and are confirmed by two re-runs in isolation before they count.",
+         "Trusts simkdc endpoints (private port pool so that a refusing side cannot be re-bound). Garbage (non-Kerberos) replies are not part of the statement and not enumerated. Verdicts of the kind 'failed although an endpoint works' depend on the library's fixed 5 s window and are confirmed in isolation before they count (up to twelve re-runs alone; one reproduction suffices, because an outcome may depend on the random KDC order).",
          "5.C12"),
  "C18": ("runtime monitor with scripted HTTP servers: recorded request histories judged by request bound, independent acceptor on every token, body hash",
          "exploration",
